@@ -2229,7 +2229,11 @@ impl Element {
         if external_tag_type == ExternalTagKind::Script {
             // empty
         } else if external_tag_type == ExternalTagKind::Import {
-            if let Some(child) = new_children.first() {
+            // (a comment is not a child node)
+            if let Some(child) = new_children
+                .iter()
+                .find(|x| !matches!(x, Node::Comment(..)))
+            {
                 ps.add_warning(ParseErrorKind::ChildNodesNotAllowed, child.location());
             }
         } else if let Some((loc, name)) = template_name {
@@ -2276,7 +2280,11 @@ impl Element {
                 if let Some(v) = element.children_mut() {
                     *v = new_children;
                 } else {
-                    if let Some(child) = new_children.first() {
+                    // (a comment is not a child node)
+                    if let Some(child) = new_children
+                        .iter()
+                        .find(|x| !matches!(x, Node::Comment(..)))
+                    {
                         ps.add_warning(ParseErrorKind::ChildNodesNotAllowed, child.location());
                     }
                 }
